@@ -10,4 +10,5 @@
 #include "c05.hpp"
 #include "c06.hpp"
 #include "c15.hpp"
+#include "c16.hpp"
 #include "c18.hpp"
